@@ -21,7 +21,7 @@ MUTS = [
     ('M02 execute (stage) ignores the result of VM::execute', X,
      'old_state.vm.execute()?;', 'let _ = old_state.vm.execute();',
      'C17.extractor.execute.error_returned_else_consumed_result_of_the_executed_vm'),
-    ('M03 prepare_vm hands VM::new the type-checker-unrelated default vm config', X,
+    ('M03 prepare_vm hands VM::new a default vm config, not the configured one', X,
      'VM::new(old_state.bytecode, old_state.vm_config, watchdog.clone())?', 'VM::new(old_state.bytecode, vm::Config::default(), watchdog.clone())?',
      'C13.extractor.prepare_vm.vm_built_from_given_stream_config_watchdog'),
     ('M04 prepare_vm hands VM::new a fresh watchdog, not the given one', X,
@@ -37,15 +37,15 @@ MUTS = [
      'self.assign_vars(transformed_values)?;', 'let _ = self.assign_vars(transformed_values);',
      'C13.extractor.run.result_is_the_chain_of_stages'),
     ('M08 infer (stage) returns a default layout when run fails', X,
-     'let layout = old_state.engine.run(old_state.execution_result)?;', 'let layout = old_state.engine.run(old_state.execution_result).unwrap_or_default();',
+     'let layout = old_state.engine.run(old_state.execution_result)?;', 'let layout = match old_state.engine.run(old_state.execution_result) { Ok(l) => l, Err(_) => StorageLayout::default() };',
      'C17.extractor.infer.error_returned_else_the_layout_run_produced'),
-    ('M09 new swaps nothing but drops the given watchdog for a fresh one', X,
+    ('M09 new drops the given watchdog for a fresh one', X,
      '        tc_config,\n        watchdog,\n    };\n    Extractor { contract, state }', '        tc_config,\n        watchdog: crate::watchdog::LazyWatchdog.in_rc(),\n    };\n    Extractor { contract, state }',
      'C13.extractor.new.same_watchdog'),
-    ('M10 run skips unify on the first call: calls unify twice', T,
+    ('M10 run calls unify twice', T,
      '        self.infer()?;\n        self.unify()', '        self.infer()?;\n        let _ = self.unify();\n        self.unify()',
      'C13.extractor.run.result_is_the_chain_of_stages'),
-    ('M11 analyze skips prepare_vm error: executes nothing, infers on an unexecuted VM', X,
+    ('M11 execute (stage) never runs the VM: consumes an unexecuted VM', X,
      '                old_state.vm.execute()?;\n                let execution_result = old_state.vm.consume();',
      '                let execution_result = old_state.vm.consume();',
      'C17.extractor.execute.error_returned_else_consumed_result_of_the_executed_vm'),
@@ -55,6 +55,19 @@ MUTS = [
     ('M13 TypeChecker::new drops the given watchdog', T,
      '            state,\n            watchdog,\n        }', '            state,\n            watchdog: crate::watchdog::LazyWatchdog.in_rc(),\n        }',
      'C13.extractor.tc_new.same_watchdog'),
+    ('M14 new swaps nothing visible to rustc but stores vm limits from a default config', X,
+     '    let state = state::HasContract {\n        vm_config,', '    let state = state::HasContract {\n        vm_config: vm::Config::default(),',
+     'C03.extractor.new.vm_config_kept'),
+    ('M15 analyze: a failed type check yields a default layout instead of the error', X,
+     'let extractor = extractor.infer()?;\n        let layout = extractor.layout();\n\n        Ok(layout.clone())',
+     'let extractor = match extractor.infer() { Ok(x) => x, Err(_) => return Ok(StorageLayout::default()) };\n        let layout = extractor.layout();\n\n        Ok(layout.clone())',
+     'C17.extractor.analyze.type_checker_errors_returned'),
+    ('M16 prepare_unifier: the checker gets a fresh watchdog', X,
+     'TypeChecker::new(old_state.tc_config, watchdog.clone())', 'TypeChecker::new(old_state.tc_config, crate::watchdog::LazyWatchdog.in_rc())',
+     'C01.extractor.prepare_unifier.closure_never_fails_and_checker_gets_given_config_watchdog'),
+    ('M17 run ignores the error of lift (goes on with no values)', T,
+     'let transformed_values = self.lift(execution_result)?;', 'let transformed_values = match self.lift(execution_result) { Ok(v) => v, Err(_) => VecDeque::new() };',
+     'C17.extractor.run.lift_error_returned_nothing_else_called'),
     ('H01 analyze: locals renamed', X,
      ['let extractor = self.disassemble()?;\n        let extractor = extractor.prepare_vm()?;', 'let extractor = extractor.execute()?;'],
      ['let stage1 = self.disassemble()?;\n        let extractor = stage1.prepare_vm()?;', 'let extractor = extractor.execute()?;'], None),
